@@ -18,21 +18,33 @@ def tyOfDesc (d : String) : Option Inet.ITy :=
   | ["t", "ietf-inet-types", n] => Inet.tyOf n
   | _ => none
 
+/-- repaired tree (`fixes/F425.diff`, `Generated.inetNoZoneNulRefused`): the plug-ins that check nothing but `inet_pton` refuse a value
+    with an embedded NUL byte right after the hints check ("Invalid character 0x00"); the theorems of `Props/C03Inet.lean` are about
+    `Inet.store`, i.e. the pinned variant (`inet_nul_refused_fails`), and the NUL-free inputs the two variants share -/
+def storeCur (t : Inet.ITy) (hints : Nat) (s : Bytes) : Except String Inet.IVal :=
+  match checkHints hints "string" with
+  | none => .error "Hint"
+  | some _ =>
+    if Generated.inetNoZoneNulRefused && !t.checks && s.contains 0 then .error "BadUtf8"
+    else match Inet.store t hints s with
+      | .ok v => .ok v
+      | .error e => .error e.name
+
 def handleTy (t : Inet.ITy) (op : String) (args : List String) : String :=
   match op, args with
   | "store", [_, h, x] =>
     match h.toNat?, Hex.dec x with
     | some hints, some s =>
-      match Inet.store t hints s with
+      match storeCur t hints s with
       | .ok v => "ok " ++ Hex.enc (Inet.canon t v) ++ " " ++ Hex.enc (Inet.lyb t v)
-      | .error e => "err " ++ e.name
+      | .error e => "err " ++ e
     | _, _ => "err BadArg"
   | "validate", [_, x] =>
     match Hex.dec x with
     | some s =>
-      match Inet.store t Generated.LYD_HINT_DATA s with
+      match storeCur t Generated.LYD_HINT_DATA s with
       | .ok v => "ok " ++ Hex.enc (Inet.canon t v)
-      | .error e => "err " ++ e.name
+      | .error e => "err " ++ e
     | none => "err BadArg"
   | "cmp", [_, x1, x2] =>
     match Hex.dec x1, Hex.dec x2 with
